@@ -161,8 +161,8 @@ func buildScenario(rng *rand.Rand, o genOpts, extraNodes int, allowBatch bool, a
 	}
 	for _, nd := range sc.nodes {
 		nd.dumpAll(c)
-		if !nd.batched {
-			nd.dumpDag(c) // static and dynamic validator sets (the model takes the node's table)
+		if !nd.batched && nd.retro == 0 {
+			nd.dumpDag(c) // static and dynamic validator sets (the model takes the node's table as given for every round)
 		}
 	}
 	// frames of the reference node (every processed round still cached)
@@ -183,6 +183,18 @@ func (sc *scenario) replayPayload(extra map[string]interface{}) map[string]inter
 func checkOracles(r *Result, sc *scenario) {
 	d := sc.d
 	memo := map[[2]int]bool{}
+	// a validator set that came into force at a round some node had already created (an election that
+	// lasted longer than the six rounds of the activation delay): what the nodes then compute for the
+	// events of those rounds depends on when each event reached them — a recorded finding with its own key
+	retroSfx := ""
+	for _, nd := range sc.nodes {
+		if nd.retro > 0 {
+			retroSfx = ":after-retroactive-validator-set"
+		}
+	}
+	if retroSfx != "" {
+		r.Inc("scenarios_with_a_retroactive_validator_set", 1)
+	}
 	// ---- C02: delivery order, consecutive indexes, rr strictly increasing, store keeps body
 	for _, nd := range sc.nodes {
 		for i, b := range nd.blocks {
@@ -218,7 +230,7 @@ func checkOracles(r *Result, sc *scenario) {
 					}
 					r.violateFor("C03", what, key, sc.replayPayload(nil))
 				} else {
-					r.violateFor("C01", what, "fork", sc.replayPayload(nil))
+					r.violateFor("C01", what, "fork"+retroSfx, sc.replayPayload(nil))
 				}
 			}
 		}
@@ -249,11 +261,11 @@ func checkOracles(r *Result, sc *scenario) {
 				continue
 			}
 			if a.round != b.round || a.lamport != b.lamport || a.wit != b.wit {
-				r.violateFor("C03", fmt.Sprintf("event %s: node 0 has (round,lamport,rr,witness)=%v, node %d (batched=%v) has %v", g.name, a, nd.id, nd.batched, b), "value-differs", sc.replayPayload(nil))
+				r.violateFor("C03", fmt.Sprintf("event %s: node 0 has (round,lamport,rr,witness)=%v, node %d (batched=%v) has %v", g.name, a, nd.id, nd.batched, b), "value-differs"+retroSfx, sc.replayPayload(nil))
 				break
 			}
 			if a.rr != "-" && b.rr != "-" && a.rr != b.rr {
-				key := "rr-differs"
+				key := "rr-differs" + retroSfx
 				if nd.batched {
 					key = "batched-passes-fame"
 				}
@@ -272,7 +284,7 @@ func checkOracles(r *Result, sc *scenario) {
 			sort.Strings(fa)
 			sort.Strings(fb)
 			if strings.Join(fa, ",") != strings.Join(fb, ",") {
-				key := "fame-differs"
+				key := "fame-differs" + retroSfx
 				if nd.batched {
 					key = "batched-passes-fame"
 				}
@@ -580,6 +592,7 @@ func runHGWith(r *Result, thorough bool, prop string, rng *rand.Rand) {
 			nt := measure(r, sc)
 			r.Count(sc.canon, nt[prop])
 			r.Inc("adversarial_scenarios", 1)
+			r.Inc("adversarial_scenarios_with_a_join_during_the_election", boolInt(sc.opts.extra > 0))
 			r.Inc(fmt.Sprintf("adversarial_election_lasting_%d_rounds", reached), 1)
 			r.Inc("ops", len(sc.cs[0].Ops))
 			for _, op := range sc.cs[0].Ops {
